@@ -26,6 +26,7 @@ type sentItem struct {
 	t     time.Duration
 	index uint32
 	done  bool // completely handed to the transport
+	tDone time.Duration
 }
 
 type rxChunk struct {
@@ -64,6 +65,7 @@ type link struct {
 	txMu        sync.Mutex // guards the sender-side state when several tasks send on one link
 	hbSent      []sentItem
 	keptAlive   bool
+	lossy       bool // the link's channel is replaced mid-run: at-most-once, order and whole frames only
 	rxPaused    bool
 	apCount     int
 	nodeGone    bool
@@ -199,6 +201,7 @@ func (l *link) send(kind int, split bool) error {
 	l.txMu.Lock()
 	if err == nil {
 		l.sent[pos].done = true
+		l.sent[pos].tDone = l.e.now()
 	} else {
 		l.txErr = err
 	}
